@@ -384,7 +384,7 @@ class Extractor:
                 cur_fn["ins"].append((cmd, int(arg), 1, txt, where))
             elif cmd in ("before", "after"):
                 parts, rest = parse_backticks(arg)
-                m = re.search(r"#(\d+)", rest)
+                m = re.search(r"#(-?\d+)", rest)
                 nth = int(m.group(1)) if m else 1
                 txt, i = payload(i)
                 cur_fn["ins"].append((cmd, parts[0], nth, txt, where))
@@ -517,9 +517,9 @@ class Extractor:
             elif kind in ("before", "after"):
                 pt = tokenize(arg)
                 hits = find_seq(toks, it.first, it.last + 1, pt)
-                if len(hits) < nth:
+                if len(hits) < abs(nth) or nth == 0:
                     raise ExtractError("lost-anchor", f"{where}: anchor `{arg}` #{nth} not found in {f['path']}")
-                h = hits[nth - 1]
+                h = hits[nth - 1] if nth > 0 else hits[nth]
                 if kind == "before":
                     p = toks[h].start
                 else:
